@@ -38,7 +38,7 @@ func (p *c10) Init(tier string, seed int64) {
 	p.nRand = p.pick(3000, 200000)
 }
 
-func (p *c10) N() int { return p.nEnum + p.nRand }
+func (p *c10) N() int { return p.nEnum + p.nRand + c10nSelf }
 
 func c10probe(tag string) []gen.Node {
 	args := make([]gen.Expr, len(c10Pool))
@@ -202,7 +202,42 @@ func (p *c10) buildCfg(c c10cfg) *Program {
 		body = append(pre, tx("H("), &gen.NBlock{Name: "bb", Body: []gen.Node{tx("HOSTBB")}}, &gen.NBlock{Name: "ba", Body: append([]gen.Node{tx("HOSTBA(")}, append(site, tx(")"))...)}, tx(")"))
 	}
 	ts["main"] = tpl("main", body...)
-	return &Program{Templates: ts, Main: "main", Ctx: map[string]interface{}{"w": "ctxw", "vars": c10vars(c.over + c.target + c.site)}}
+	prog := &Program{Templates: ts, Main: "main", Ctx: map[string]interface{}{"w": "ctxw", "vars": c10vars(c.over + c.target + c.site)}}
+	if style := (c.over + 2*c.twice + 3*c.target + 5*c.site + 7*c.mode) % 4; style != 0 {
+		// names are keys: the host lives in a "directory" and names its targets with "./" and "../" (or the
+		// other way round), and templates that a resolution against the host's directory would find exist
+		// and say DECOY
+		names := map[string]string{}
+		for n := range ts {
+			switch {
+			case n == "main":
+				names[n] = []string{"", "pages/main", "pages/sub/main.twig", "main"}[style]
+			case style == 3:
+				names[n] = "lib/" + n
+			case len(n)%2 == 0:
+				names[n] = "./" + n
+			default:
+				names[n] = "../" + n
+			}
+		}
+		renameTemplates(prog, func(n string) string {
+			if m, ok := names[n]; ok {
+				return m
+			}
+			return n
+		})
+		for n, m := range names {
+			if n == "main" {
+				continue
+			}
+			for _, decoy := range []string{"pages/" + n, "pages/sub/" + n, "pages/" + m, "pages/sub/" + m, "lib/" + m, n, strings.TrimPrefix(strings.TrimPrefix(m, "./"), "../")} {
+				if _, taken := prog.Templates[decoy]; !taken {
+					prog.Templates[decoy] = tpl(decoy, tx("DECOY:"+decoy))
+				}
+			}
+		}
+	}
+	return prog
 }
 
 // c10vars is the hash the host hands over through a variable: a Go map of one type or another (a context
@@ -239,7 +274,56 @@ func (p *c10) cfgAt(i int) c10cfg {
 	return c
 }
 
+// c10nSelf: templates that include or embed themselves a finite number of times.
+const c10nSelf = 10
+
+// buildSelf: terminating self-inclusion - a counter handed down through the with-hash (with and without only), a
+// tree rendered by a template that includes itself for every child, two templates including each other, a
+// template included by an override of its own embed, and a template that includes itself exactly once.
+func (p *c10) buildSelf(j int) (*Program, string) {
+	ts := map[string]*gen.Template{}
+	lt := func(l, r gen.Expr) gen.Expr { return &gen.EBin{Op: ">", L: l, R: r} }
+	minus1 := func(n string) gen.Expr { return &gen.EBin{Op: "-", L: nm(n), R: num(1)} }
+	hash1 := func(k string, v gen.Expr) gen.Expr { return &gen.EHash{Keys: []gen.Expr{nm(k)}, Vals: []gen.Expr{v}} }
+	ctx := map[string]interface{}{"w": "ctxw"}
+	var main []gen.Node
+	kind := j % 5
+	only := j >= 5
+	switch kind {
+	case 0: // counter
+		ts["rec"] = tpl("rec", tx("R"), pr(nm("n")), tx("("), &gen.NIf{Conds: []gen.Expr{lt(nm("n"), num(0))}, Bodies: [][]gen.Node{{&gen.NInclude{Tpl: str("rec"), With: hash1("n", minus1("n")), Only: only}}}}, tx(")"), pr(nm("n")))
+		main = []gen.Node{&gen.NInclude{Tpl: str("rec"), With: hash1("n", num(4)), Only: only}, tx("|"), &gen.NInclude{Tpl: str("rec"), With: hash1("n", num(0))}}
+	case 1: // tree
+		leaf := func(n string) map[string]interface{} {
+			return map[string]interface{}{"name": n, "kids": []interface{}{}}
+		}
+		ctx["root"] = map[string]interface{}{"name": "r", "kids": []interface{}{
+			map[string]interface{}{"name": "a", "kids": []interface{}{leaf("a1"), leaf("a2")}}, leaf("b"),
+			map[string]interface{}{"name": "c", "kids": []interface{}{map[string]interface{}{"name": "c1", "kids": []interface{}{leaf("c11")}}}}}}
+		ts["tree"] = tpl("tree", tx("<"), pr(attr(nm("node"), "name")), &gen.NFor{Val: "k", Seq: attr(nm("node"), "kids"), Body: []gen.Node{tx(" "), &gen.NInclude{Tpl: str("tree"), With: hash1("node", nm("k")), Only: only}}}, tx(">"))
+		main = []gen.Node{&gen.NInclude{Tpl: str("tree"), With: hash1("node", nm("root")), Only: only}}
+	case 2: // two templates including each other
+		ts["ping"] = tpl("ping", tx("pi"), pr(nm("n")), &gen.NIf{Conds: []gen.Expr{lt(nm("n"), num(0))}, Bodies: [][]gen.Node{{&gen.NInclude{Tpl: str("pong"), With: hash1("n", minus1("n")), Only: only}}}}, tx("."))
+		ts["pong"] = tpl("pong", tx("po"), pr(nm("n")), &gen.NIf{Conds: []gen.Expr{lt(nm("n"), num(0))}, Bodies: [][]gen.Node{{&gen.NEmbed{Tpl: str("ping"), With: hash1("n", minus1("n")), Only: only}}}}, tx(","))
+		main = []gen.Node{&gen.NInclude{Tpl: str("ping"), With: hash1("n", num(5)), Only: only}}
+	case 3: // the override of an embed includes the template that holds the embed
+		ts["lay"] = tpl("lay", tx("L["), &gen.NBlock{Name: "eb", Body: []gen.Node{tx("lay-eb")}}, tx("]"))
+		ts["host"] = tpl("host", tx("H"), pr(nm("d")), tx("(:"), &gen.NIf{Conds: []gen.Expr{lt(nm("d"), num(0))}, Bodies: [][]gen.Node{{
+			&gen.NEmbed{Tpl: str("lay"), Blocks: []*gen.NBlock{{Name: "eb", Body: []gen.Node{tx("ov("), &gen.NInclude{Tpl: str("host"), With: hash1("d", minus1("d")), Only: only}, tx(")")}}}}}}}, tx(":)"))
+		main = []gen.Node{&gen.NInclude{Tpl: str("host"), With: hash1("d", num(2)), Only: only}}
+	default: // exactly once, decided by a variable the first pass sets for the second
+		ts["once"] = tpl("once", tx("O("), &gen.NIf{Conds: []gen.Expr{&gen.EUn{Op: "not", X: nm("again")}}, Bodies: [][]gen.Node{{&gen.NInclude{Tpl: str("once"), With: hash1("again", &gen.EBool{V: true}), Only: only}}}, HasElse: true, Else: []gen.Node{tx("second")}}, tx(")"))
+		main = []gen.Node{&gen.NSet{Name: "again", X: &gen.EBool{V: false}}, &gen.NInclude{Tpl: str("once")}, tx("|"), &gen.NEmbed{Tpl: str("once")}}
+	}
+	ts["main"] = tpl("main", append(append([]gen.Node{tx("M(")}, main...), tx(")"))...)
+	return &Program{Templates: ts, Main: "main", Ctx: ctx}, fmt.Sprintf("self/%d/only=%v", kind, only)
+}
+
 func (p *c10) build(i int) (*Program, string, bool) {
+	if i >= p.nEnum+p.nRand {
+		prog, sig := p.buildSelf(i - p.nEnum - p.nRand)
+		return prog, sig, true
+	}
 	if i < p.nEnum {
 		c := p.cfgAt(i)
 		if c.site == 3 && c.mode != 2 && c.mode != 3 {
